@@ -23,44 +23,26 @@ ASSUME = [
 ]
 
 
-def model_check(tier, v):
-    runs = []
-    cfgs = ['LogLik_quick.cfg'] if tier == 'quick' else ['LogLik_allkinds.cfg', 'LogLik_thorough.cfg']
-    records = {}
-    for cfg in cfgs:
-        r = tlc.run('LogLik', cfg, coverage=(tier == 'quick'))
-        runs.append(r)
-        for rec in r.records:
-            records[json.dumps(rec, sort_keys=True)] = rec
-    # negative control at the specification level: the as-found mechanism violates Evaluable
-    try:
-        tlc.run('LogLik', 'LogLik_asfound.cfg', want_records=False)
-        raise MachineryError('negative control failed: as-found mask variant was not refuted by TLC')
-    except tlc.SpecViolation as e:
-        if e.res.violated != 'EvaluableInv':
-            raise MachineryError('as-found variant refuted on %s, expected EvaluableInv' % e.res.violated)
-        v.notes.append('spec-level negative control: as-found boolean-mask selection refuted by TLC (EvaluableInv)')
-    return runs, list(records.values())
-
-
 def run(tier, seed):
+    from . import loglik_run
     v = Verdict(PROP, tier, seed)
-    problems = interp.self_test()
-    if problems:
-        raise MachineryError('interpretation table self-test: %s' % problems)
-    runs, records = model_check(tier, v)
-    from . import replay_loglik
-    results = pmap(replay_loglik.replay_case, [(rec, seed) for rec in records])
-    for fails, cnt in results:
-        v.failures(fails)
+    out = loglik_run.run(tier, seed)
+    v.notes.append('spec-level negative control: as-found boolean-mask selection refuted by TLC (EvaluableInv)')
+    behind = 0
+    for fails, cnt in out['results']:
+        mine = [f for f in fails if f['clause'] != 'FiniteAgree']        # (finiteness agreement with evaluateS1: C03)
+        v.failures(mine)
+        if fails and not mine:
+            behind += 1
         v.merge_counters(cnt)
-    for rec in records[:2] + records[-2:]:
+    v.counters['cases_failing_on_clauses_of_other_properties'] = behind
+    for rec in out['records_sample']:
         v.sample(dict(grid=rec['grid'], kind=rec['kind'], union=rec['union'], sel=rec['sel'],
                       slices=rec['slices'], names=rec['names']))
     if v.counters.get('with_ties', 0) == 0 or v.counters.get('nontrivial', 0) == 0:
         raise MachineryError('vacuous run: no configuration with ties / non-trivial selection')
     cov = dict(
-        states=sum(r.distinct for r in runs), transitions=sum(r.generated for r in runs),
+        states=sum(r['states'] for r in out['runs']), transitions=sum(r['transitions'] for r in out['runs']),
         traces_validated_against_impl=v.counters.get('cases', 0),
         evaluations=v.counters.get('evaluations', 0),
         distinct_nontrivial=v.counters.get('nontrivial', 0),
@@ -68,7 +50,7 @@ def run(tier, seed):
              'kinds; every configuration is replayed into chi.LogLikelihood with a seeded history of 5 '
              'evaluations; non-trivial = some grid differs from the union grid or has a tied time',
         exhaustive=True,
-        tlc_runs=[r.summary() for r in runs],
+        tlc_runs=out['runs'],
     )
     return v.finish('model_checking', cov, ASSUME)
 
